@@ -2,7 +2,7 @@ CFG = {
     "lean_targets": ["Norad.Props.C02"],
     "audit": "Norad/Audit/C02.lean",
     "rule": ("valid glyphs built through the public API (every field; anchors, guidelines, contours, points, components with names, colours, "
-             "identifiers, transforms and object libs under explicit identifiers; lib values of every plist type nested to depth 3; strings and keys "
+             "identifiers, transforms and object libs under explicit identifiers; contours without points at the first, middle and last position, several in a row, with identifiers and libs; lib values of every plist type nested to depth 3; strings and keys "
              "from 16 classes: multi-line, blanks, XML metacharacters, CR, non-BMP; numbers incl. 1e300, subnormal, -0, one ulp around 1) x three "
              "WriteOptions per glyph (all 36 combinations tab/space x width 0..8 x quote style covered every 12 glyphs) through "
              "Glyph::encode_xml_with_options then Glyph::parse_raw. two thirds of the glyphs stay inside the guards of glif_roundtrip_partial. "
@@ -30,6 +30,6 @@ MANIFEST = {
              "(so the result depends on the options otherwise), note trimming is idempotent and the identity on trimmed text, the transform/advance gates drop only "
              "values that parse back within tolerance, element-level writer->parser round trips, and the recorded counterexamples."),
     "design_ref": "5 / C02, Appendix F",
-    "note": "trusted: Lean kernel, quick-xml and plist as parameters, Rust number formatting; five recorded findings (two from DESIGN.md section 6, three found by the check)",
+    "note": "trusted: Lean kernel, quick-xml and plist as parameters, Rust number formatting; five recorded findings (two from DESIGN.md section 6, three found by the check), each matched only when the result equals Spec02.recorded exactly",
     "technique": "Lean 4 theorems about the writer model + event-level correspondence on generated glyphs x all WriteOptions + round-trip oracle with tolerances",
 }
